@@ -48,10 +48,13 @@ def judge(case) -> Verdict:
     if edits:
         # history: a shadow query, then the member list of a group address is edited IN PLACE, then the
         # removal - everything below is judged against the CURRENT members
-        acl.shading(skip)
+        warm = acl.shading(skip)
         acl.shadow_of(skip)
         gnames = sorted({it["rec"][side]["n"] for it in acl_case["items"] if it["t"] == "ace" for side in ("src", "dst")
                          if it["rec"][side]["k"] == "group"})
+        # groups that take part in the report just queried come first: editing them changes what is covered
+        text = " ".join(list(warm) + [x for ls in warm.values() for x in ls]).split()
+        gnames = [g for g in gnames if g in text] + [g for g in gnames if g not in text]
         done = 0
         for pick, how, arg in edits:
             if not gnames:
@@ -218,7 +221,7 @@ def case_st(draw, tier):
                         multi=True))
     case = {"acl": acl, "skip": draw(st.sampled_from(A.SKIPS))}
     if draw(st.sampled_from([True, False, False])):
-        case["edits"] = [[draw(st.integers(0, 9)), draw(st.sampled_from(["append", "pop", "line", "replace", "replace"])),
+        case["edits"] = [[draw(st.sampled_from([0, 0, 0, 1, 2, 3])), draw(st.sampled_from(["append", "pop", "line", "replace", "replace", "replace"])),
                           [draw(G.base_st()), draw(G.wildmask_st(2))]] for _ in range(draw(st.integers(1, 3)))]
     return case
 
